@@ -367,6 +367,35 @@ def leaf_spans(nodes, idx=(), off=0, out=None):
     return out, off
 
 
+def refill(nodes, payload: bytes, off=0):
+    """The same instance structure with every leaf value read back from
+    `payload` (which must have the length encode(nodes) has; counts are taken
+    from the structure, not from the bytes).  -> (new nodes, offset after)."""
+    out = []
+    for nd in nodes:
+        if nd[0] == "f":
+            n = len(codec.enc_raw(nd[2], nd[4]))
+            out.append(["f", nd[1], nd[2], nd[3], codec.dec_bytes(nd[2], payload[off:off + n])])
+            off += n
+        elif nd[0] == "b":
+            n = codec.tsize(nd[2])
+            word = int.from_bytes(payload[off:off + n], "little")
+            off += n
+            fl, bit = [], 0
+            for fname, ftyp, _v in nd[3]:
+                w = codec.tsize(ftyp)
+                fl.append([fname, ftyp, (word >> bit) & ((1 << w) - 1)])
+                bit += w
+            out.append(["b", nd[1], nd[2], fl, word >> bit])
+        else:
+            its = []
+            for it in nd[2]:
+                sub, off = refill(it, payload, off)
+                its.append(sub)
+            out.append(["g", nd[1], its])
+    return out, off
+
+
 def first_diff_field(nodes, a: bytes, b: bytes):
     """Name of the first field whose bytes differ between payloads a and b."""
     spans, total = leaf_spans(nodes)
